@@ -6,6 +6,7 @@ package main
 
 import (
 	"encoding/json"
+	"time"
 
 	"github.com/golang/protobuf/proto"
 	"github.com/hashicorp/raft"
@@ -46,7 +47,13 @@ func vSameMessage(a, b *robust.Message) bool {
 		a.ClientMessageId == b.ClientMessageId, a.Revision == b.Revision, a.RemoteAddr == b.RemoteAddr, a.Currentmaster == b.Currentmaster)
 }
 
-func verifHarness_C07_mark() {
+// C10: the duplicate-detection marker survives the marking of a message of
+// death: the rewritten entry still carries the client message id.
+func verifHarness_C10_marked() { vMarkScenario(true) }
+
+func verifHarness_C07_mark() { vMarkScenario(false) }
+
+func vMarkScenario(markerOnly bool) {
 	store, err := raftstore.NewLevelDBStore(vTempDir(), false, true)
 	verifAssume(err == nil)
 	ircstore, err := raftstore.NewLevelDBStore(vTempDir(), false, true)
@@ -73,6 +80,14 @@ func verifHarness_C07_mark() {
 	// the MessageOfDeath branch of the real step cannot panic (verifHarness_C07_replay)
 	verifAssume(verifOr(!vPanicNow, orig.Type != robust.MessageOfDeath))
 	verifCaseLabel("panic=" + vB(vPanicNow) + " proto=" + vB(useProto))
+	if !vPanicNow {
+		// only matters for native replays, where the real step runs instead of the stub:
+		// with a server it returns normally, without one it panics
+		ircServer = ircserver.NewIRCServer("robustirc.net", time.Unix(0, 1))
+		outputStream, _ = outputstream.NewOutputStream("")
+	} else {
+		ircServer, outputStream = nil, nil
+	}
 
 	verifOnExit(func() {
 		// the process is about to terminate: this must be the marking path
@@ -87,12 +102,20 @@ func verifHarness_C07_mark() {
 		verifAssert(verifAnd(got.Index == index, got.Term == term, got.Type == raft.LogCommand), "marked-entry-keeps-index-term-type")
 		verifAssert(verifImplies(len(got.Data) > 0, (got.Data[0] == 'p') == useProto), "marked-entry-keeps-its-encoding")
 		m := robust.NewMessageFromBytes(got.Data, index)
+		if markerOnly {
+			verifAssert(verifAnd(m.ClientMessageId == orig.ClientMessageId, m.Session == orig.Session), "marked-entry-keeps-session-and-client-message-id")
+			return
+		}
 		verifAssert(m.Type == robust.MessageOfDeath, "marked-entry-decodes-as-message-of-death")
 		verifAssert(vSameMessage(&m, &orig), "marked-entry-keeps-the-message")
 		f2, _ := ircstore.FirstIndex()
 		verifAssert(f2 == 0, "irc-log-store-untouched")
 	})
 	res := fsm.applyProto(l, &msg)
+	if markerOnly {
+		verifAssert(verifOr(!vPanicNow, orig.Type == robust.MessageOfDeath), "panic-terminates-the-process")
+		return
+	}
 	// returned normally: no panic reached the marker (or the entry was already a message of death)
 	verifAssert(verifOr(!vPanicNow, orig.Type == robust.MessageOfDeath), "panic-terminates-the-process")
 	verifAssert(res == nil, "result-is-the-step-result")
